@@ -182,4 +182,22 @@ example : firedAt civUTC (step civUTC exState (.disable 1)).1 90 = [] := by deci
 example : firedAt civUTC (step civUTC (step civUTC exState (.disable 1)).1 (.enable 1)).1 90 = [0] := by decide
 example : jobSchedule civUTC exState 1 (60 * minuteNs + 5) (61 * minuteNs) = some [90] := by decide
 
+/-! ## What the repaired defects looked like (statements about the unrepaired timer function, for the record) -/
+
+/-- the spool loop before "run a job at most once per tick": every spooled, enabled entry runs -/
+def fireLoopUnrepaired (objs : Nat → JobObj) (spool : List Nat) : List Nat :=
+  spool.filter (fun p => (objs p).disable = false)
+
+/-- D17: with that loop "at most once per minute" fails — EnableJob on a spooled job makes it run twice -/
+theorem C20_D17_unrepaired_counterexample :
+    ∃ s, Reach civUTC s ∧ ¬ (fireLoopUnrepaired s.objs s.spool).Nodup :=
+  ⟨(step civUTC exState (.enable 1)).1, Reach.step _ _ (Reach.step _ _ (Reach.init 90) rfl) rfl, by decide⟩
+
+/-- D26: without the `actionTime.Equal(c.next)` test a late timer run executes the spool of another minute —
+    the job runs at a minute its spec does not denote -/
+theorem C20_D26_unrepaired_counterexample :
+    ∃ s now p, Reach civUTC s ∧ now ≠ s.next ∧ p ∈ fireLoop s.objs s.spool [] ∧
+      (s.objs p).spec.denote (civUTC (s.objs p).loc now) = false :=
+  ⟨exState, 95, 0, Reach.step _ _ (Reach.init 90) rfl, by decide, by decide, by decide⟩
+
 end ErgoVerif.Props.C20
